@@ -2855,6 +2855,15 @@ func (d *Document) parseTableCell(decoder *xml.Decoder, startElement xml.StartEl
 				if para != nil {
 					cell.Paragraphs = append(cell.Paragraphs, *para)
 				}
+			case "tbl":
+				// 解析嵌套表格
+				nested, err := d.parseTable(decoder, t)
+				if err != nil {
+					return nil, err
+				}
+				if nested != nil {
+					cell.Tables = append(cell.Tables, *nested)
+				}
 			default:
 				if err := d.skipElement(decoder, t.Name.Local); err != nil {
 					return nil, err
